@@ -64,7 +64,9 @@ impl BlocksCount {
     pub fn passed_from(&self, prev: &BlocksCount) -> usize {
         match self.lines {
             lines if lines < prev.lines => ATTR_COLS - prev.columns,
-            lines if lines == prev.lines => self.columns - prev.columns,
+            // the frame clock can be moved backwards inside a line (snapshot loaded into
+            // a machine which was stopped mid-frame): nothing has passed then
+            lines if lines == prev.lines => self.columns.saturating_sub(prev.columns),
             _ => {
                 (ATTR_COLS - prev.columns)
                     + (self.lines - prev.lines - 1) * ATTR_COLS
